@@ -48,7 +48,7 @@ add('k1_lib', 'copy_bytes_memmove_80', 'copy_bytes_contract::<80>()', props=['C0
 add('k1_lib', 'copy_bytes_memmove_260', 'copy_bytes_contract::<260>()', props=['C01', 'C05'], tier='t', cost=500, macro='p', attrs=['#[kani::unwind(130)]'])
 add('k1_lib', 'copy_bytes_large_forwards', 'copy_bytes_large_h()', props=['C01', 'C05'], tier='q', cost=2, macro='p',
     attrs=['#[kani::stub(core::ptr::copy, crate::kani_verif::k1_lib::stub_copy_record)]', '#[kani::unwind(2)]'])
-add('k1_lib', 'copy_bytes_unwound_b8', 'copy_bytes_unwound_h()', props=['C01'], tier='t', kind='bounded', bound='count < 8 in a 16-byte object, loops unwound (no loop contracts)',
+add('k1_lib', 'copy_bytes_unwound_b8', 'copy_bytes_unwound_h()', props=['C01', 'C05'], tier='q', kind='bounded', bound='count < 8 in a 16-byte object, loops unwound (no loop contracts)',
     attrs=['#[kani::unwind(9)]'], flags=['nolc'], cost=10, macro='p')
 
 # ---------------------------------------------------------------------------------------------------
